@@ -47,17 +47,17 @@ LArg(e) == Arg(e.tok, ToFlat(e.m))
 LRes(e) == Res(e.ok, IF e.ok THEN ToFlat(e.rm) ELSE Empty, e.rn)
 
 ResetTo(k, o) ==
-    /\ inst' = [kind |-> k, origin |-> o]
+    /\ inst' = [kind |-> k, origin |-> o, shared |-> FALSE]
     /\ phase' = "serve"                     \* the harness links a rebuilt scope (ApplySelf) before it uses it
     /\ link' = [r \in Refs |-> "inner"]
-    /\ defaultsCache' = InitialCaches([kind |-> k, origin |-> o])
+    /\ defaultsCache' = InitialCaches([kind |-> k, origin |-> o, shared |-> FALSE])
     /\ cell' = Restrict(DeclRoot(k), SubPaths)
     /\ unitCache' = [u \in UnitIds |-> [sorted |-> "nil", re |-> "nil", names |-> "nil", memoText |-> "none", memoVal |-> "none"]]
     /\ table' = [r \in Runs |-> "absent"]
     /\ initCount' = [r \in Runs |-> 0]
     /\ scratch' = {}
     /\ mutex' = [x \in DOMAIN mutex |-> 0]
-    /\ descr' = Describe([kind |-> k, origin |-> o])
+    /\ descr' = Describe([kind |-> k, origin |-> o, shared |-> FALSE])
     /\ argmem' = [g \in G |-> Empty]
     /\ pc' = [g \in G |-> "idle"]
     /\ cur' = [g \in G |-> NoCall]
@@ -68,7 +68,7 @@ ResetTo(k, o) ==
 TInit ==
     /\ l = 1
     /\ seen = {}
-    /\ inst = [kind |-> "none", origin |-> "fresh"]
+    /\ inst = [kind |-> "none", origin |-> "fresh", shared |-> FALSE]
     /\ phase = "serve"
     /\ link = [r \in Refs |-> "inner"]
     /\ defaultsCache = [o \in Objs |-> Unbuilt]
